@@ -59,6 +59,49 @@ def run_cut(case):
     return {"kind": "custom", "W": 0, "sizes": [], "demands": case["demands"], "pool": [list(c) for c in pool], "events": events, "input": case}
 
 
+def run_cg_steps(case):
+    """Step level: wrap cg._solve_master_lp and cg.knapsack_pricing (module-level names the loop calls) and log every call."""
+    import math
+    import solvor.cg as CG
+    W, sizes, demands = case["W"], case["sizes"], case["demands"]
+    steps = []
+    orig_m, orig_p = CG._solve_master_lp, CG.knapsack_pricing
+
+    def s6(v):
+        return int(round(v * 1000000))
+
+    def master(columns, dem, eps):
+        r = orig_m(columns, dem, eps)
+        x, d, lp = r
+        fin = all(isinstance(v, (int, float)) and math.isfinite(v) and abs(v) < 1000 for v in list(x) + list(d) + [lp])
+        steps.append({"k": "master", "cols": [list(c) for c in columns], "finite": bool(fin),
+                      "x6": [s6(v) for v in x] if fin else [0] * len(columns), "duals6": [s6(v) for v in d] if fin else [0] * len(dem),
+                      "lp6": s6(lp) if fin else 0})
+        return r
+
+    def price(piece_sizes, roll_width, duals, eps):
+        r = orig_p(piece_sizes, roll_width, duals, eps)
+        pat, val = r
+        steps.append({"k": "price", "pattern": [int(v) for v in pat], "value6": s6(val) if math.isfinite(val) and abs(val) < 1000 else 0})
+        return r
+    CG._solve_master_lp, CG.knapsack_pricing = master, price
+    try:
+        try:
+            r = CG.solve_cg(demands, roll_width=W, piece_sizes=sizes)
+            status = r.status.name
+        except Exception as ex:  # noqa: BLE001
+            status = "raise:" + type(ex).__name__
+    finally:
+        CG._solve_master_lp, CG.knapsack_pricing = orig_m, orig_p
+    if not steps or len(steps) > 80:
+        return {"skipped": True}
+    last = [e for e in steps if e["k"] == "master"][-1]
+    # converged = the loop ended because pricing found nothing (the step before the final master is a price step)
+    converged = len(steps) >= 2 and steps[-2]["k"] == "price" and last["finite"]
+    lb = int(math.ceil(last["lp6"] / 1000000 - 1e-6)) if last["finite"] else 0
+    return {"W": W, "sizes": sizes, "demands": demands, "steps": steps, "status": status, "converged": bool(converged), "lb": lb, "input": case}
+
+
 def gen_stock(rng):
     nt = rng.randint(1, 3) if rng.random() < 0.6 else rng.randint(4, 5)
     W = rng.randint(3, 12)
